@@ -94,6 +94,8 @@ impl Display for Variant<'_> {
             Self::Type => write!(f, "{TYPE_KEYWORD}"),
             Self::Variable(variable, _) => write!(f, "{variable}"),
             Self::Lambda(variable, implicit, domain, body) => {
+                let domain = annotation(domain);
+
                 if *implicit {
                     write!(f, "{{{variable} : {domain}}} => {body}")
                 } else {
@@ -105,6 +107,8 @@ impl Display for Variant<'_> {
                 free_variables(codomain, 0, &mut variables);
 
                 if variables.contains(&0) {
+                    let domain = annotation(domain);
+
                     if *implicit {
                         write!(f, "{{{variable} : {domain}}} -> {codomain}")
                     } else {
@@ -165,6 +169,23 @@ impl Display for Variant<'_> {
                 write!(f, "if {condition} then {then_branch} else {else_branch}")
             }
         }
+    }
+}
+
+// Convert the annotation of a binder to a string. The grammar [ref:bison_grammar] allows any term
+// there except a bare definition group, which needs parentheses.
+fn annotation(term: &Term) -> String {
+    match &term.variant {
+        Variant::Unifier(subterm, _) => {
+            // We `clone` the borrowed `subterm` to avoid holding the dynamic borrow for too long.
+            if let Some(subterm) = { subterm.borrow().clone() } {
+                annotation(&subterm)
+            } else {
+                format!("{term}")
+            }
+        }
+        Variant::Let(_, _) => format!("({term})"),
+        _ => format!("{term}"),
     }
 }
 
